@@ -80,8 +80,14 @@ def build_harness():
         shutil.copy(os.path.join(V, "harness", "go.sum"), os.path.join(alt, "go.sum"))
         cmd += ["-modfile", os.path.join(alt, "go.mod")]
     # go.sum of the repository covers every dependency of the harness
-    rc, out = sh(cmd + ["-o", os.path.join(WORK, "bin", "harness"), "."],
-                 cwd=os.path.join(V, "harness"), env=GOENV, timeout=600)
+    # built beside the target and renamed over it: a check that is executing the previous binary
+    # (checks of different properties may run at the same time) keeps its open file
+    tmp = os.path.join(WORK, "bin", "harness.new.%d" % os.getpid())
+    rc, out = sh(cmd + ["-o", tmp, "."], cwd=os.path.join(V, "harness"), env=GOENV, timeout=600)
+    if rc == 0:
+        os.replace(tmp, os.path.join(WORK, "bin", "harness"))
+    elif os.path.exists(tmp):
+        os.remove(tmp)
     return rc, out
 
 TRANSLATORS = [("genconsts", "Gen_Consts.v"), ("genc15", "Gen_IntCodecs.v")]
@@ -148,6 +154,10 @@ def build_drivers(only=None):
         deps = [x[:-2] + ".vo" for x in coq_closure(ev) if not x.endswith(ev)] + [ev, drv_src]
         if os.path.exists(exe) and all(os.path.getmtime(x) <= os.path.getmtime(exe) for x in deps if os.path.exists(x)):
             continue
+        # built in a fresh directory that replaces the old one when complete (a check of another
+        # property may be executing the previous driver)
+        final = d
+        d = final + ".new.%d" % os.getpid()
         shutil.rmtree(d, ignore_errors=True)
         os.makedirs(d)
         rc, out = sh(["coqc", "-Q", os.path.join(COQ, "theories"), "Slim", "-Q", os.path.join(COQ, "gen"), "SlimGen",
@@ -166,6 +176,11 @@ def build_drivers(only=None):
             rc, out = sh(["ocamlfind", "ocamlopt", "-w", "-a", "-package", "str", "-linkpkg"] + srcs + ["driver.ml", "-o", "driver"], cwd=d, timeout=900)
         if rc != 0:
             return rc, "ocaml build %s failed:\n%s" % (name, out)
+        old_d = final + ".old.%d" % os.getpid()
+        if os.path.exists(final):
+            os.rename(final, old_d)
+        os.rename(d, final)
+        shutil.rmtree(old_d, ignore_errors=True)
         msgs.append("built driver " + name)
     return 0, "; ".join(msgs) or "drivers up to date"
 
@@ -343,21 +358,29 @@ def known_findings(pid):
     return kf
 
 # ---------------------------------------------------------------- main check
+def ev_path(pid, report_as=None):
+    if report_as:
+        return os.path.join(WORK, report_as + "+" + pid, "evidence.json")
+    return os.path.join(V, "evidence", pid + ".json")
+
 def run_check(pid, tier, report_as=None):
     t0 = time.time()
     seed = int(os.environ.get("VERIF_SEED", "1") or "1")
     cfgp = os.path.join(V, "checks", pid + ".json")
     with open(cfgp) as f:
         cfg = json.load(f)
-    work = os.path.join(WORK, pid)
+    # a sub-check run on behalf of a property has its own work directory, evidence and replay
+    # file, so that two properties sharing a sub-check can be checked at the same time
+    tag = pid if not report_as else report_as + "+" + pid
+    work = os.path.join(WORK, tag)
     shutil.rmtree(work, ignore_errors=True)
     os.makedirs(work)
     os.makedirs(os.path.join(V, "replays"), exist_ok=True)
     os.makedirs(os.path.join(V, "evidence"), exist_ok=True)
-    evp = os.path.join(V, "evidence", pid + ".json")
+    evp = ev_path(pid, report_as)
     if os.path.exists(evp):
         os.remove(evp)
-    replay_path = os.path.join(V, "replays", "%s-%s-%d.json" % (pid, tier, seed))
+    replay_path = os.path.join(V, "replays", "%s-%s-%d.json" % (tag, tier, seed))
     broken = []      # proof obligations / correspondences that no longer check
     violations = []  # concrete failing inputs on the implementation
     notes = []
@@ -588,7 +611,7 @@ def main():
     for sub in cfg.get("also", []):
         st = run_check(sub, tier, report_as=pid)
         try:
-            with open(os.path.join(V, "evidence", sub + ".json")) as f:
+            with open(ev_path(sub, pid)) as f:
                 se = json.load(f)
             subs[sub] = {"status": "ok" if st == 0 else "violation", "property_theorems": se["coverage"].get("property_theorems"),
                          "print_assumptions": se["coverage"].get("print_assumptions"), "obligations": se["coverage"].get("obligations"),
